@@ -10,4 +10,4 @@ Attrs: TypeAlias = JSONDict
 
 
 def text_length(text: str) -> int:
-    return len(text.encode("utf-16-le")) // 2
+    return len(text.encode("utf-16-le", "surrogatepass")) // 2
